@@ -1,6 +1,7 @@
 """C17 — grammar relaxations only add accepted inputs and mean what they say."""
 import json
 import random
+import common
 
 import grammar
 from gen import sentences as S
@@ -160,6 +161,62 @@ acmeIdx OBJECT-TYPE SYNTAX Integer32 MAX-ACCESS not-accessible STATUS current DE
 acmeState OBJECT-TYPE SYNTAX INTEGER { up(1), down(2) } MAX-ACCESS read-only STATUS current DESCRIPTION "s" ::= { acmeEntry 2 }
 END
 '''
+
+
+CACHE_PAIRS = [({}, {'commaAtTheEndOfImport': True}), ({}, {'curlyBracesAroundEnterpriseInTrap': True, 'supportSmiV1Keywords': True}),
+               ({'supportSmiV1Keywords': True}, {'supportSmiV1Keywords': True, 'supportIndex': True}), ({}, {'noCells': True}),
+               ({'commaAtTheEndOfSequence': True}, {'mixOfCommasAndSpaces': True})]
+
+
+def cache_texts(modules, specials):
+    """texts that tell the option sets of CACHE_PAIRS apart, plus ordinary modules"""
+    out = list(modules[:2]) + [t for t in specials if t]
+    for t in list(out):
+        for option, kind, bad, expect in breakages(t):
+            if option in ('commaAtTheEndOfImport', 'curlyBracesAroundEnterpriseInTrap', 'supportIndex', 'noCells', 'commaAtTheEndOfSequence',
+                          'mixOfCommasAndSpaces') and len(out) < 40:
+                out.append(bad)
+    return out
+
+
+def cache_run(pairs, texts):
+    """[(options, text, with shared cache, without cache)] for every difference"""
+    import shutil
+    from pysmi.parser.smi import parserFactory
+    diffs = []
+    for a, b in pairs:
+        for first, second in ((a, b), (b, a)):
+            d = common.scratch_dir('c17-cache-')
+            try:
+                built = []
+                for opts in (first, second, first):
+                    try:
+                        built.append((opts, parserFactory(**opts)(tempdir=d)))
+                    except Exception as e:
+                        diffs.append((opts, None, 'cannot be built on a shared cache directory: %s' % type(e).__name__, None))
+                for opts, p in built:
+                    fresh = parserFactory(**opts)()
+                    for t in texts:
+                        r1 = pc.impl_parse(None, t, parser=p)
+                        r0 = pc.impl_parse(None, t, parser=fresh)
+                        if r1 != r0:
+                            diffs.append((opts, t, {k: v for k, v in r1.items() if k != 'ast'} or 'a tree', {k: v for k, v in r0.items() if k != 'ast'} or 'another tree'))
+                            break
+            finally:
+                shutil.rmtree(d, ignore_errors=True)
+    return diffs
+
+
+def cache_stream(ctx, modules, specials):
+    res = ctx.res
+    pairs = CACHE_PAIRS if ctx.tier != 'quick' else CACHE_PAIRS[:3]
+    texts = cache_texts(modules, specials)
+    res.count('cache-pairs', len(pairs))
+    for a, b in pairs:
+        res.case(('cache', tuple(sorted(a)), tuple(sorted(b))), True)
+    for opts, t, got, want in cache_run(pairs, texts):
+        res.oracle_failures.append({'key': 'shared-cache', 'what': 'parser [%s] built on a cache directory shared with another option set gives %s, built without cache %s' % (
+            ','.join(sorted(opts)) or 'strict', got, want), 'input': {'cache_pairs': [[a, b] for a, b in pairs], 'text': t}})
 
 
 def special_modules(rng, k):
@@ -434,9 +491,9 @@ def run(ctx):
     from pysmi import error
     from pysmi.parser.smi import parserFactory
     from pysmi.lexer.smi import lexerFactory
-    for bogus in ['bogus', 'supportsmiv1keywords', 'commaAtTheEndOfImports', 'NoCells', 'x' * 40, 'supportSmiV1Keywords ']:
+    for bogus in ['bogus', 'lowercaseIdentifier', 'curlyBracesAroundEnterprise', 'supportsmiv1keywords', 'commaAtTheEndOfImports', 'NoCells', 'x' * 40, 'supportSmiV1Keywords ']:
         for fname, fac in (('parserFactory', parserFactory), ('lexerFactory', lexerFactory)):
-            for extra in ({}, {'noCells': True}):
+            for extra in ({}, {'noCells': True}, {'supportSmiV1Keywords': True}, dict(pc.DIALECTS['smiV1']), dict(pc.DIALECTS['smiV1Relaxed'])):
                 kw = dict(extra)
                 kw[bogus] = True
                 res.case((fname, bogus), True)
@@ -456,6 +513,10 @@ def run(ctx):
             lexerFactory(**{o: True})
         except BaseException as e:
             res.oracle_failures.append({'key': 'known-option', 'what': 'lexerFactory rejects the documented option %s: %r' % (o, e), 'input': {'option': o}})
+
+    # (iii-b) parser tables cached on disk: parsers of different option sets sharing one cache directory (as successive
+    # runs of a tool do) behave like parsers built without a cache
+    cache_stream(ctx, modules, specials)
 
     # (iv) correspondence with the Lean LR model
     if ctx.model is not None:
@@ -481,6 +542,9 @@ def search(ctx):
 def replay(payload):
     inp = payload['input']
     key = payload.get('key', '')
+    if key == 'shared-cache':
+        diffs = cache_run([tuple(x) for x in inp['cache_pairs']], [inp['text']] if inp.get('text') else [])
+        return {'fails': bool(diffs), 'what': [str(d)[:200] for d in diffs[:3]]}
     if key == 'unknown-option':
         from pysmi import error
         from pysmi.parser.smi import parserFactory
